@@ -101,6 +101,10 @@ def history(rng, inst, n):
                 recs.append(dict(id=a, power=rng.choice([0, 1]), mode=rng.choice([0, 1, 2, 3, 4, 8, 9, 8, 9]), fan=rng.choice(range(7)), spill=rng.choice([0, 1]),
                                  timer=rng.choice([0, 1]), setpoint=rng.randint(*lim[a]), temp=rng.choice([235, 0, -55, 301, 999, 180]),
                                  err=rng.choice([0, 0, 0, 5, 7, 300])))
+                if recs[-1]["spill"] and rng.random() < 0.5:
+                    # an AirTouch 5 console that reports the bypass damper open as well while the unit spills (a bit AirTouch 4 does not have):
+                    # the state both generations can express is "spilling", and both must show it
+                    recs[-1]["bypass"] = 1
             steps.append(("ac", recs))
             if rng.random() < 0.3:
                 # the same report again with only the automatic sub-mode changed (auto <-> auto-heat <-> auto-cool): nothing else moves
